@@ -22,16 +22,20 @@ RULE = (
     "(0.1 grid spacings .. 3x the range) or explicit rows (overlapping, reaching beyond the data, "
     "empty or single-point in tiny_window); model specifications as name, instance (arbitrary "
     "prefix), list/tuple of names, instances or both; default or custom FitParameters and "
-    "FitRequirements; axis name and units from small pools. Facets partition the domain by the "
+    "FitRequirements; axis name and units from small pools. A quarter of the coherence cases and two "
+    "thirds of the independence cases are 'friendly' (well separated peaks of one kind, the true "
+    "model among the requested ones) so that successes and several successful combinations occur; "
+    "edge_peak puts a strong peak 0.3..3.5 steps inside a window end. Facets partition the domain by the "
     "number of points in the narrowest window (0..3 tiny_window, 4..11 few_points and - when equal "
     "to the number of parameters - zero_dof, >= 12 main "
     "facets), by the position of the estimates (inside / outside the data) and by the grid, so that "
     "each known root cause is confined to one facet. Oracles: my own window rule, point count in the "
     "half-open label window, model evaluation, chi-square, p-value (mpmath incomplete gamma), AIC, "
     "weighted linear least squares for the background-only optimum, and subtraction. Non-trivial: "
-    "coherence/few_points/zero_dof/grid_gap/guess_fraction - at least one result had its statistics "
+    "coherence/few_points/edge_peak/grid_gap/guess_fraction - at least one result had its statistics "
     "recomputed and the results are mixed (>= 1 success and >= 1 non-success) or the case has a "
-    "single result whose statistics were recomputed; independence - at least one result with finite "
+    "single result whose statistics were recomputed; zero_dof - a window holding exactly as many "
+    "points as parameters; independence - at least one result with finite "
     "statistics was reproduced by a single-peak call; auto_windows - at least one window edge was "
     "moved by clipping or neighbour separation; tiny_window - a window with fewer points than "
     "parameters; outside_* - an estimate outside the data; remove_synthetic - a successful window "
@@ -63,7 +67,8 @@ ASSUMPTIONS = [
     "on uniform grids)",
     "estimates are sorted ascending (scalar windows raise ValueError otherwise, by documentation)",
     "guess_background_fraction is drawn from [0.34, 0.9] in the main facets and from (0.02, 0.34) in "
-    "guess_fraction; 1.0 (no bulk left) is not generated",
+    "guess_fraction; edge_peak uses (2.1..3.9)/N, i.e. one point at either end of the window; 1.0 (no "
+    "bulk left) is not generated",
     "grids of the main facets have max/min spacing < 4; a grid with a gap of 6..40 spacings only in "
     "grid_gap",
     "when every model combination fails the only requirement is that the result equals one of the "
@@ -466,7 +471,7 @@ def analyse(case, b, results, labels, *, removal=True):
             if (ppar["loc"] - xs[0] < 2 * step * (1 - 1e-12)) or (xs[-1] - ppar["loc"] < 2 * step * (1 - 1e-12)):
                 raise Violation("success-requirements",
                                 f"peak {i}: success with location {ppar['loc']!r} within 2 steps ({step!r}) of the "
-                                f"window data [{xs[0]!r}, {xs[-1]!r}]")
+                                f"window data [{float(xs[0])!r}, {float(xs[-1])!r}]")
             if compared:
                 bmin = fs.min_chisq_polynomial(xs, ys, vs, BKG_NPAR[bk] - 1)
                 if bmin > 0:
@@ -528,15 +533,16 @@ def compare_removal(x, y, out, spec, dim, yunit, original):
     if not np.array_equal(got[outside], y[outside]):
         j = int(np.flatnonzero(outside & (got != y))[0])
         raise Violation("removal-outside-window",
-                        f"point {j} (x={x[j]!r}) outside every successful window changed from {y[j]!r} to {got[j]!r}",
+                        f"point {j} (x={float(x[j])!r}) outside every successful window changed from "
+                        f"{float(y[j])!r} to {float(got[j])!r}",
                         {"windows": [[s[2], s[3]] for s in spec]})
     err = np.abs(got - expected)
     bad = err > 1e-12 * scale + 1e-300
     if np.any(bad):
         j = int(np.flatnonzero(bad)[0])
         raise Violation("removal-inside-window",
-                        f"point {j} (x={x[j]!r}): got {got[j]!r}, expected input - fitted peak = {expected[j]!r} "
-                        f"(input {y[j]!r})", {"windows": [[s[2], s[3]] for s in spec]})
+                        f"point {j} (x={float(x[j])!r}): got {float(got[j])!r}, expected input - fitted peak = "
+                        f"{float(expected[j])!r} (input {float(y[j])!r})", {"windows": [[s[2], s[3]] for s in spec]})
     return int(np.count_nonzero(touched))
 
 
@@ -870,6 +876,45 @@ def guess_fraction_cases(draw, tier):
         ranges.append([float(x[i0]), float(np.nextafter(x[i0 + k - 1], np.inf))])
     case["windows"] = {"mode": "explicit", "ranges": ranges}
     return case
+
+
+@st.composite
+def edge_peak_cases(draw, tier):
+    """A strong, well resolved peak 0.3..3.5 grid steps inside one end of an explicit window
+    (the documented limit is 2 steps), model and background matching the data."""
+    n = draw(st.integers(100, 160))
+    dx = draw(st.sampled_from([0.01, 0.25, 1.0]))
+    g = {"kind": "uniform", "n": n, "x0": draw(st.sampled_from([0.0, 1.0, -20.0])) * dx * 10, "dx": dx}
+    x = grid_x(g)
+    sigma = draw(st.sampled_from([0.05, 0.3, 1.0]))
+    kind = draw(st.sampled_from(PEAK_KINDS[:2]))
+    j = draw(st.integers(45, n - 46))       # index of the first / last point of the window
+    t = draw(st.one_of(st.floats(1.05, 1.95), st.floats(0.3, 3.5)))   # distance of the peak from it
+    far = draw(st.integers(25, 40))
+    side = draw(st.sampled_from(["low", "high"]))
+    if side == "low":
+        pos = float(x[j] + t * dx)
+        rng_ = [float(x[j]), float(np.nextafter(x[j + far], np.inf))]
+    else:
+        pos = float(x[j] - t * dx)
+        rng_ = [float(x[j - far]), float(np.nextafter(x[j], np.inf))]
+    npts = count_in(x, rng_[0], rng_[1])
+    # the peak guess uses the window without int(N*fraction/2) points at either end: keep that at
+    # one point so that a peak next to the window end can be found at all
+    gbf = draw(st.floats(2.1, 3.9)) / npts
+    return {
+        "dim": "x", "xunit": "angstrom", "yunit": "counts", "grid": g,
+        "bkg": [draw(st.sampled_from([0.0, 5.0])), draw(st.floats(-5, 5)), 0.0],
+        "peaks": [{"kind": kind, "pos": pos, "fwhm": draw(st.floats(3.0, 8.0)) * dx,
+                   "height": sigma * draw(_logu(20, 200)), "frac": 0.5}],
+        "noise": {"mode": "const", "sigma": sigma, "seed": draw(st.integers(0, 2**32 - 1))},
+        "models": {"peak": {"form": "single", "items": [{"kind": kind, "as": "name", "prefix": ""}]},
+                   "background": {"form": "single", "items": [{"kind": "linear", "as": "name", "prefix": ""}]}},
+        "params": {"gbf": gbf, "nsf": None, "explicit_default": False},
+        "reqs": draw(st.one_of(st.none(), st.just({"min_p": 0.0, "max_w": 2.0, "min_w": 0.5}))),
+        "estimates": [pos], "edge_side": side,
+        "windows": {"mode": "explicit", "ranges": [[float(rng_[0]), float(rng_[1])]]},
+    }
 
 
 @st.composite
@@ -1347,22 +1392,25 @@ def _zero_dof_region(case):
 FACETS = [
     Facet("coherence", check_coherence,
           strategy=lambda tier: coherence_cases(tier).filter(_in_range(K_MAIN, None)),
-          quick=(5, 12), thorough=(16, 150), shrink=False, min_nontrivial=0.2,
+          quick=(5, 10), thorough=(16, 60), shrink=False, min_nontrivial=0.2,
           doc="count/order, statistics recomputed, success => requirements, too-narrow rule, removal; "
               "windows of >= 12 points, estimates inside the data"),
     Facet("independence", check_independence,
           strategy=lambda tier: independence_cases(tier).filter(_in_range(K_MAIN, None)),
-          quick=(4, 5), thorough=(16, 50), shrink=False, min_nontrivial=0.2,
+          quick=(4, 5), thorough=(16, 20), shrink=False, min_nontrivial=0.2,
           doc="each peak alone in its reported window; first successful combination wins; data outside "
               "the window are irrelevant"),
     Facet("auto_windows", check_auto_windows,
           strategy=lambda tier: auto_window_cases(tier).filter(_in_range(K_TINY, None, near_npar=1)),
-          quick=(2, 15), thorough=(16, 80), shrink=False, min_nontrivial=0.2,
+          quick=(2, 12), thorough=(16, 40), shrink=False, min_nontrivial=0.2,
           doc="scalar widths: windows inside the data, containing the estimate, separated from neighbours"),
     Facet("few_points", check_coherence,
           strategy=lambda tier: few_points_cases(tier).filter(_in_range(K_TINY, K_MAIN - 1, near_npar=0)),
-          quick=(1, 12), thorough=(16, 40), shrink=False, min_nontrivial=0.0,
+          quick=(1, 12), thorough=(16, 15), shrink=False, min_nontrivial=0.0,
           doc="windows of 4..11 points (not equal to a parameter count): too-narrow rule at the boundary"),
+    Facet("edge_peak", check_coherence, strategy=lambda tier: edge_peak_cases(tier),
+          quick=(1, 20), thorough=(16, 40), shrink=False, min_nontrivial=0.2,
+          doc="peak 0.3..3.5 steps inside a window end: success only if at least 2 steps away"),
     Facet("remove_synthetic", check_removal, strategy=lambda tier: removal_cases(tier),
           quick=(1, 200), thorough=(16, 1500), min_nontrivial=0.2,
           doc="remove_peaks on hand-built FitResults: arbitrary windows, assessments, containers, variances refusal"),
